@@ -111,7 +111,175 @@ Fixpoint val_of_dtype (t : dtype) : val :=
 Definition val_of_res {A} (enc : A -> val) (r : res A) : val :=
   match r with Ok a => enc a | Err e => VErr (exn_name e) end.
 
+(* ---------- Python values:
+     None/bool/int/float/str as themselves, list -> VList,
+     ("bytearray", s) ("bytes", s) ("Decimal", s) ("date", ordinal) ("datetime", us, None | offset)
+     ("tuple", [..]) ("dict", [(k, v)..]) ("Row", [names], [values]) *)
+Definition g_bytearray := lit "bytearray".
+Definition g_bytes := lit "bytes".
+Definition g_decimal := lit "Decimal".
+Definition g_date := lit "date".
+Definition g_datetime := lit "datetime".
+Definition g_tuple := lit "tuple".
+Definition g_dict := lit "dict".
+Definition g_row := lit "Row".
+
+Fixpoint strs_of_vals (l : list val) : option (list str) :=
+  match l with
+  | [] => Some []
+  | VStr s :: r => option_map (cons s) (strs_of_vals r)
+  | _ => None
+  end.
+
+Fixpoint pyval_of_val (v : val) : option pyval :=
+  let many :=
+    fix go (l : list val) : option (list pyval) :=
+      match l with
+      | [] => Some []
+      | x :: r => match pyval_of_val x, go r with Some y, Some ys => Some (y :: ys) | _, _ => None end
+      end in
+  match v with
+  | VNone => Some PNone
+  | VBool b => Some (PBool b)
+  | VInt z => Some (PInt z)
+  | VFloat f => Some (PFloat f)
+  | VStr s => Some (PStr s)
+  | VList l => option_map PList (many l)
+  | VTup [VStr tag; VStr s] =>
+      if str_eqb tag g_bytearray then Some (PBytearray s)
+      else if str_eqb tag g_bytes then Some (PBytes s)
+      else if str_eqb tag g_decimal then Some (PDecimal s)
+      else None
+  | VTup [VStr tag; VInt d] => if str_eqb tag g_date then Some (PDate d) else None
+  | VTup [VStr tag; VInt us; VNone] => if str_eqb tag g_datetime then Some (PDatetime us None) else None
+  | VTup [VStr tag; VInt us; VInt off] => if str_eqb tag g_datetime then Some (PDatetime us (Some off)) else None
+  | VTup [VStr tag; VList l] =>
+      if str_eqb tag g_tuple then option_map PTuple (many l)
+      else if str_eqb tag g_dict then
+        option_map PDict
+          ((fix go (l : list val) : option (list (pyval * pyval)) :=
+              match l with
+              | [] => Some []
+              | VTup [k; x] :: r =>
+                  match pyval_of_val k, pyval_of_val x, go r with
+                  | Some k', Some x', Some r' => Some ((k', x') :: r')
+                  | _, _, _ => None
+                  end
+              | _ => None
+              end) l)
+      else None
+  | VTup [VStr tag; VList names; VList vals] =>
+      if str_eqb tag g_row then
+        match strs_of_vals names, many vals with
+        | Some ns, Some vs => Some (PRow ns vs)
+        | _, _ => None
+        end
+      else None
+  | _ => None
+  end.
+
+Fixpoint val_of_pyval (v : pyval) : val :=
+  match v with
+  | PNone => VNone
+  | PBool b => VBool b
+  | PInt z => VInt z
+  | PFloat f => VFloat f
+  | PStr s => VStr s
+  | PBytearray s => VTup [VStr g_bytearray; VStr s]
+  | PBytes s => VTup [VStr g_bytes; VStr s]
+  | PDecimal s => VTup [VStr g_decimal; VStr s]
+  | PDate d => VTup [VStr g_date; VInt d]
+  | PDatetime us None => VTup [VStr g_datetime; VInt us; VNone]
+  | PDatetime us (Some off) => VTup [VStr g_datetime; VInt us; VInt off]
+  | PList l => VList (map val_of_pyval l)
+  | PTuple l => VTup [VStr g_tuple; VList (map val_of_pyval l)]
+  | PDict kv => VTup [VStr g_dict; VList (map (fun p => VTup [val_of_pyval (fst p); val_of_pyval (snd p)]) kv)]
+  | PRow names vals => VTup [VStr g_row; VList (map VStr names); VList (map val_of_pyval vals)]
+  end.
+
+Fixpoint pyvals_of_vals (l : list val) : option (list pyval) :=
+  match l with
+  | [] => Some []
+  | x :: r => match pyval_of_val x, pyvals_of_vals r with Some y, Some ys => Some (y :: ys) | _, _ => None end
+  end.
+
+Definition val_of_unit (_ : unit) : val := VNone.
+Definition val_of_rows (l : list pyval) : val := VList (map val_of_pyval l).
+
+(* the harness runs with TZ=UTC: astimezone() converts to offset 0 *)
+Definition local_offset : Z := 0.
+
 Definition k_json := lit "json".
+Definition k_infer := lit "infer".
+Definition k_merge := lit "merge".
+Definition k_verify := lit "verify".
+Definition k_create := lit "create".
+Definition k_create_s := lit "create_s".
+Definition k_row := lit "row".
+
+Definition run_more (kind : str) (args : list val) : val :=
+  if str_eqb kind k_infer then
+    match args with
+    | VList rows :: _ =>
+        match pyvals_of_vals rows with
+        | Some rs => val_of_res val_of_dtype (infer_schema_from_list rs)
+        | None => VBad
+        end
+    | _ => VBad
+    end
+  else if str_eqb kind k_merge then
+    match args with
+    | a :: b :: _ =>
+        match dtype_of_val a, dtype_of_val b with
+        | Some a', Some b' => val_of_res val_of_dtype (merge_type a' b')
+        | _, _ => VBad
+        end
+    | _ => VBad
+    end
+  else if str_eqb kind k_verify then
+    match args with
+    | t :: VBool nullable :: v :: _ =>
+        match dtype_of_val t, pyval_of_val v with
+        | Some t', Some v' => val_of_res val_of_unit (verify t' nullable v')
+        | _, _ => VBad
+        end
+    | _ => VBad
+    end
+  else if str_eqb kind k_create then
+    match args with
+    | VList rows :: _ =>
+        match pyvals_of_vals rows with
+        | Some rs =>
+            match infer_schema_from_list rs with
+            | Ok s => val_of_res (fun out => VTup [val_of_dtype s; val_of_rows out]) (create_inferred local_offset rs)
+            | Err e => VErr (exn_name e)
+            end
+        | None => VBad
+        end
+    | _ => VBad
+    end
+  else if str_eqb kind k_create_s then
+    match args with
+    | t :: VList rows :: _ =>
+        match dtype_of_val t, pyvals_of_vals rows with
+        | Some s, Some rs => val_of_res val_of_rows (create_with_schema local_offset s rs)
+        | _, _ => VBad
+        end
+    | _ => VBad
+    end
+  else if str_eqb kind k_row then
+    match args with
+    | v :: _ =>
+        match pyval_of_val v with
+        | Some r => VTup [val_of_res val_of_pyval (pickle_loads (pickle_dumps r));
+                          val_of_res val_of_pyval (as_dict r);
+                          val_of_pyval (as_dict_conv r)]
+        | None => VBad
+        end
+    | _ => VBad
+    end
+  else VBad.
+
 Definition k_parse := lit "parse".
 
 Definition run (c : val) : val :=
@@ -127,6 +295,6 @@ Definition run (c : val) : val :=
         | Some j => val_of_res val_of_dtype (parse_json_value j)
         | None => VBad
         end
-      else VBad
+      else match c with VTup (_ :: args) => run_more kind args | _ => VBad end
   | _ => VBad
   end.
